@@ -2,6 +2,7 @@
 From Coq Require Import List NArith ZArith Bool Arith String.
 Import ListNotations.
 Require Import Scan Parse Construct GenGlobals GlobalsPolicy StandaloneLemmas.
+Require ParseL ParserIsolation.
 
 (* KIND C11_global_writes_confined : F *)
 (* regenerated from lib/yaml: every write to a module- or class-level container, or to an attribute that may alias one, is either inside
@@ -35,6 +36,33 @@ Theorem C11_document_starts_fresh : forall f base e rest_ acc ex v tags,
   end.
 Proof. exact l_document_starts_fresh. Qed.
 Eval vm_compute in "ASSUME:C11_document_starts_fresh"%string. Print Assumptions C11_document_starts_fresh.
+
+(* KIND C11_directives_do_not_leak : U *)
+(* the parser model, EVERY token list, every point between two documents (the parser about to start a document, any stacks of states and marks),
+   any fuel: whatever table of tag handles and whatever %YAML version the earlier documents left behind, the rest of the run - events, marks,
+   error or normal end - is the same.  %TAG / %YAML directives of one document are never visible in a later one (Proofs/ParserIsolation.v:
+   a relational reading of the parser monad over all 21 states) *)
+Theorem C11_directives_do_not_leak : forall fuel acc ts p stk mks h v h' v', p = ParseL.PDocStart \/ p = ParseL.PImplicitDocStart ->
+  ParseL.parse_loop fuel acc {| ParseL.toks := ts; ParseL.pstate_ := Some p; ParseL.pstates := stk; ParseL.pmarks := mks; ParseL.handles := h; ParseL.version_ := v |} =
+  ParseL.parse_loop fuel acc {| ParseL.toks := ts; ParseL.pstate_ := Some p; ParseL.pstates := stk; ParseL.pmarks := mks; ParseL.handles := h'; ParseL.version_ := v' |}.
+Proof. exact ParserIsolation.directives_do_not_leak. Qed.
+Eval vm_compute in "ASSUME:C11_directives_do_not_leak"%string. Print Assumptions C11_directives_do_not_leak.
+(* KIND C11_version_is_never_read : U *)
+(* in EVERY parser state: the %YAML version kept in the state never influences anything the parser delivers *)
+Theorem C11_version_is_never_read : forall fuel acc s v,
+  ParseL.parse_loop fuel acc s = ParseL.parse_loop fuel acc {| ParseL.toks := ParseL.toks s; ParseL.pstate_ := ParseL.pstate_ s; ParseL.pstates := ParseL.pstates s;
+                                                                ParseL.pmarks := ParseL.pmarks s; ParseL.handles := ParseL.handles s; ParseL.version_ := v |}.
+Proof. exact ParserIsolation.version_is_never_read. Qed.
+Eval vm_compute in "ASSUME:C11_version_is_never_read"%string. Print Assumptions C11_version_is_never_read.
+(* KIND C11_handles_matter_inside_a_document : F *)
+(* non-vacuity: inside a document the table does matter - the same tokens with a different table give a different run *)
+Example C11_handles_matter_inside_a_document :
+  let m := {| Scan.m_index := 0; Scan.m_line := 0; Scan.m_col := 0 |} in
+  let tk k := {| Scan.t_kind := k; Scan.t_start := m; Scan.t_end := m |} in
+  let ts := [tk (Scan.TTag (Some [33;101;33]%N) [120%N]); tk (Scan.TScalar [97%N] true Scan.SPlain); tk Scan.TStreamEnd] in
+  let st h := {| ParseL.toks := ts; ParseL.pstate_ := Some ParseL.PBlockNode; ParseL.pstates := [ParseL.PDocEnd]; ParseL.pmarks := []; ParseL.handles := h; ParseL.version_ := None |} in
+  ParseL.parse_loop 4 [] (st []) <> ParseL.parse_loop 4 [] (st [([33;101;33]%N, [116%N])]).
+Proof. exact ParserIsolation.handles_matter_inside_a_document. Qed.
 
 (* PARTIAL: stream_is_list_of_docs, parser_doc_independent (%YAML/%TAG of one document invisible in the next) and the dump-side resets are not
    proved; the models are pure functions of (input, class tables), so "same result whatever calls preceded" is carried by the correspondence
